@@ -10,6 +10,7 @@ import time as _real_time
 
 VERIF_ROOT = os.path.dirname(os.path.dirname(os.path.abspath(__file__)))
 REPO = os.environ.get("VERIF_REPO", "/repo")
+SLEEP_IS_NOOP = False  # set in forked fsfault children (see runner.install_tripwires)
 
 
 def derive_seed(*parts):
